@@ -71,6 +71,9 @@ def stepLine (x : D) (line : String) : D × String :=
       | some i, some dd, some t => ap (.step i dd t)
       | _, _, _ => (x, "bad-op")
   | ["evalbase"] => ap .evalBase
+  | ["setup", i] => match i.toNat? with
+      | some i => ap (.setup i)
+      | none => (x, "bad-op")
   | ["view", i] => match i.toNat? with
       | some i => (x, showSolo (view x.st i))
       | none => (x, "bad-op")
